@@ -457,6 +457,27 @@ impl<'a> Exec<'a> {
                 obs.judged += 1;
             }
         }
+        if asserts.c05 {
+            // hook (feature verif-hooks): internal time in state and pause record agree with the model
+            let (t_in_state, paused) = self.anim.verif_snapshot();
+            if self.t.exact {
+                if t_in_state.as_nanos() != self.t.ns {
+                    return Err(format!("op {n}: internal time in state is {:?} but the model's exact time is {} ns", t_in_state, self.t.ns));
+                }
+            } else if (t_in_state.as_secs_f64() - self.t.secs).abs() > self.t.unc + 1e-9 + 1e-7 * self.t.secs.abs() {
+                return Err(format!("op {n}: internal time in state is {:?} but the model's time is {} s", t_in_state, self.t.secs));
+            }
+            let want = self.model.paused.map(|(s, _)| s);
+            let got = paused.as_ref().map(|(s, _)| st_index(s));
+            if want != got {
+                return Err(format!("op {n}: remembered interrupted animation is {:?} but the rules say {:?}", paused.as_ref().map(|(s, d)| (st_index(s), *d)), self.model.paused));
+            }
+            if let (Some((_, d)), Some(pt)) = (paused.as_ref(), self.paused_t.as_ref()) {
+                if pt.exact && d.as_nanos() != pt.ns {
+                    return Err(format!("op {n}: remembered position is {:?} but the interrupted animation was at {} ns", d, pt.ns));
+                }
+            }
+        }
         if asserts.c08 {
             let cur = self.anim.current_values();
             let init = P::from_vals(&self.desc.initial_values);
